@@ -93,7 +93,11 @@ func VH_C02() {
 	}
 	// gating is C01's subject: three logger levels suffice to reach both
 	// outcomes for every severity
-	L := []Level{TraceLevel, WarnLevel, OffLevel}[vChoose(3)]
+	symflags := vParam("symflags", 0) == 1
+	L := TraceLevel
+	if !symflags {
+		L = []Level{TraceLevel, WarnLevel, OffLevel}[vChoose(3)]
+	}
 	lg.SetLevel(L)
 	dbg := false
 	states.Env().SetDebugMode(false)
@@ -108,9 +112,15 @@ func VH_C02() {
 	for i := 0; i < m; i++ {
 		args = append(args, vArg(vParam("depth", 1)))
 	}
-	verb := vChoose(11)
-	if m >= 2 {
+	verb := 2
+	switch {
+	case symflags:
+		// all flag combinations: the flags are independent of verb and arguments
+		verb = []int{2, 0}[vChoose(2)]
+	case m >= 2:
 		verb = []int{0, 2, 9}[vChoose(3)]
+	default:
+		verb = vChoose(11)
 	}
 	var r Level
 	switch verb {
@@ -148,7 +158,11 @@ func VH_C02() {
 			if _, isStr := args[0].(string); !isStr {
 				vKnown("C02-println-first-argument-not-a-string")
 			}
-			msg, _ = args[0].(string)
+			if s0, isStr := args[0].(string); isStr {
+				msg = s0
+			} else {
+				msg = "?" // the text of a non-string first argument is not prescribed; it is not blank
+			}
 		} else {
 			msg = ""
 		}
